@@ -101,7 +101,8 @@ Definition clear_store_related (c : conn) : conn :=
   let c := set_pubrec c [] in
   let c := set_pubcomp c [] in
   let c := set_store c [] in
-  set_qos2 c [].
+  let c := set_qos2 c [] in
+  set_send_count c 0.        (* F-26: no outbound exchange survives the reset of the session *)
 
 (* send_stored: oversize entries are dropped (id released, forgotten by the three sets); the rest
    are requested for sending again in store order; the count is set from what is resent *)
